@@ -29,7 +29,7 @@ SPECS = {
         assumptions=ASSUME_FILE),
     "C02": dict(
         harness="fgrid", src=["harness/fgrid.cpp"], plan=grid_plan("c02"), level="exploration",
-        rule="same grid as C01 plus seeds {'seed','', 'a', 255*'x'}; one evaluation = execute_encrypt twice, output compared byte for byte with the libcrypto reference of the documented format, "
+        rule="same grid as C01 plus seeds {'seed', 256*'y', '' (thorough: +'a', 255*'x', 304 chars, binary)}; one evaluation = execute_encrypt twice, output compared byte for byte with the libcrypto reference of the documented format, "
              "determinism, no plaintext block in the body, input unchanged; distinct = structural class",
         assumptions=ASSUME_FILE),
 }
@@ -44,13 +44,13 @@ def tamper_plan(mode):
 SPECS.update({
     "C05": dict(
         harness="ftamper", src=["harness/ftamper.cpp"], plan=tamper_plan("c05"), level="fault_enumeration",
-        rule="base files made by the reference (quick: 30 covering every cipher x hash mode, T in {1,2,4}, 6 sizes; thorough: all 270); on each, EVERY single-bit flip, every byte value at offsets 0..9, "
+        rule="base files made by the reference plus a third of them written by wencry's own encrypt (quick: 30 covering every cipher x hash mode, T in {1,2,4}, 6 sizes; thorough: all 270); on each, EVERY single-bit flip, every byte value at offsets 0..9, "
              "every truncation, 6 extensions, every one-byte and 16-byte deletion/insertion, every swap of two body blocks / chunks / IV fields (thorough: + header-byte x body-bit pairs); "
              "one evaluation = verify + decrypt of one modified file; oracle: both fail, or both succeed with exactly the original plaintext; distinct = (modification kind, base file) classes",
         assumptions=ASSUME_FILE + ["single modifications only (plus the stated pairs); the known finding C05 hdr-byte-8 is matched by its key, any other accepted modification is a violation"]),
     "C06": dict(
         harness="ftamper", src=["harness/ftamper.cpp"], plan=tamper_plan("c06"), level="fault_enumeration",
-        rule="base files made by the reference x keys {all 128 single-bit neighbours, all-zero, all-FF, rotated, reversed}; one evaluation = verify + decrypt under the wrong key; "
+        rule="base files made by the reference AND the same files written by wencry's own encrypt x keys {all 128 single-bit neighbours, all-zero, all-FF, rotated, reversed}; one evaluation = verify + decrypt under the wrong key; "
              "oracle: both report failure and the output stream holds 0 bytes; distinct = (base file, key class)",
         assumptions=ASSUME_FILE),
     "C11": dict(
@@ -77,8 +77,7 @@ def c07_plan(tier):
     L = [dict(defs=defs(2, 2), args=dict(mode="c07", sub="string", bufsz=2, hbufsz=2), nshards=8)]
     for hb in (1, 2, 3):
         L.append(dict(defs=defs(2, hb), args=dict(mode="c07", sub="file", bufsz=2, hbufsz=hb), nshards=8))
-    if tier == "thorough":
-        L.append(dict(defs=defs(2, 2), sanitize="none", args=dict(mode="c07", sub="big", bufsz=2, hbufsz=2), nshards=12))
+    L.append(dict(defs=defs(2, 2), sanitize="none", args=dict(mode="c07", sub="big" if tier == "thorough" else "big1", bufsz=2, hbufsz=2), nshards=12 if tier == "thorough" else 3))
     return L
 
 
@@ -92,7 +91,7 @@ SPECS.update({
     "C07": dict(
         harness="cryptolib", src=["harness/cryptolib.cpp"], plan=c07_plan, level="exploration",
         rule="getStringHash: every length 0..320 x {zeros, FF, counter, 0x80 at every single position}; getFileHash through filebuffer64 built with refill size 64/128/192 bytes: every length 0..3R+65, "
-             "with and without the 64-byte prefix block, start offsets 0..3; thorough adds 2^29-1, 2^29, 2^29+1, 2^29+57 bytes through a buffer64 subclass (bit counter crossing 2^32); "
+             "with and without the 64-byte prefix block, start offsets 0..3; 2^29 bytes (thorough: 2^29-1, 2^29, 2^29+1, 2^29+57) fed through a buffer64 subclass, so that the bit counter crosses 2^32; "
              "all three algorithms; oracle = libcrypto digest; distinct = (entry point, algorithm, length mod 64, blocks/refills, prefix)",
         assumptions=ASSUME_LIB),
     "C08": dict(
@@ -136,7 +135,7 @@ SPECS.update({
         assumptions=ASSUME_FILE + ["crash model = process death: writes reach the file in issue order, the last one possibly torn at any byte; no power-failure reordering (the property does not ask for it)"]),
     "C18": dict(
         harness="fextra", src=["harness/fextra.cpp"], plan=extra_plan("c18", bufs=(1, 2)), level="exploration",
-        rule="T=2..16 (quick: T<=4 fully, larger T on a 1/4 lattice), cipher modes 1..4, 5 seeds, plaintexts of 2T+1 chunks with (a) equal chunks (b) distinct chunks, chunk size 1 and 2 blocks; checks: IV fields pairwise distinct and seed dependent, "
+        rule="T=2..16 (quick: T<=4 fully, larger T on a 1/4 lattice), cipher modes 1..4, 7 seeds (empty, 1, 4, 255, 256, 304 characters, binary), plaintexts of 2T+1 chunks with (a) equal chunks (b) distinct chunks, chunk size 1 and 2 blocks; checks: IV fields pairwise distinct and seed dependent, "
              "ciphertext seed dependent, no two streams start from the same value (equal plaintext chunks must not give equal ciphertext chunks; CTR/OFB: C_i xor C_j != P_i xor P_j); a violation is keyed by its cause "
              "(whole file equals the reference in which every stream starts from IV[0] => stream-start-iv:shared-with-stream-0)",
         assumptions=ASSUME_FILE),
